@@ -12,6 +12,10 @@ use crate::rng::Rng;
 use erltf::errors::DecodeError;
 use serde_json::json;
 
+fn grng_small(seed: u64, i: u64) -> Rng {
+    Rng::derive(seed, 3, 1000 + i)
+}
+
 fn has_numeric_twin_keys(v: &Val) -> bool {
     match v {
         Val::Map(e) => {
@@ -351,6 +355,36 @@ pub fn run(ctx: &Ctx) {
         }
         ctx.extra("sibling_key_maps", json!(maps.len()));
         ctx.extra("sibling_key_encodings", json!(n));
+    }
+
+    // (a'') every small structure, bare and placed, canonical + one random set of alternatives
+    {
+        let small = crate::genr::small::all_small_values();
+        let stride = ctx.pick(4usize, 1usize);
+        let mut n = 0u64;
+        for (i, v) in small.iter().enumerate() {
+            if !ctx.time_left() {
+                break;
+            }
+            for (j, w) in crate::genr::small::placed(v).iter().enumerate() {
+                if j > 0 && (i + j) % stride != 0 {
+                    continue;
+                }
+                if let Ok(bytes) = ref_encode(w, &mut Canonical, &opts) {
+                    check_encoding(ctx, w, &bytes, &[], &opts, &mut rng);
+                    n += 1;
+                }
+                let mut ch = RandomChooser { rng: &mut grng_small(ctx.seed, i as u64), legacy_bias: 50, taken: vec![] };
+                if let Ok(bytes) = ref_encode(w, &mut ch, &opts) {
+                    let taken = ch.taken.clone();
+                    drop(ch);
+                    check_encoding(ctx, w, &bytes, &taken, &opts, &mut rng);
+                    n += 1;
+                }
+            }
+        }
+        ctx.class("small-structures/exhaustive");
+        ctx.extra("small_structure_encodings", json!(n));
     }
 
     // (b) random values x random alternatives
